@@ -39,7 +39,7 @@ theorem shift_eq (x k : Int) : (x + k = k) ↔ x = 0 := by omega
 /-- unfold the vocabulary of `ArgSpec` and the generated enumerators down to linear integer facts -/
 macro "argchain_unfold" : tactic => `(tactic| simp only [firstViolated, denseB, denseX, factorL, factorU, tags,
     squareNonneg, transEnumOk, optionsOk, rowEquilibrated, colEquilibrated, letter, lower, max0, ite_max0,
-    gsisx_agrees, sp_trsv_agrees, sp_gemv_agrees, decide_eq_true_eq,
+    gsisx_agrees, sp_trsv_agrees, decide_eq_true_eq,
     SLU_NC, SLU_NCP, SLU_NR, SLU_SC, SLU_S, SLU_D, SLU_C, SLU_Z, SLU_GE, SLU_TRLU, SLU_TRU, SLU_DN,
     DOFACT, SamePattern, SamePattern_SameRowPerm, FACTORED, NOTRANS, TRANS, CONJ, NO, YES,
     chN, chR, chC, chB, chL, chU, chT, chI, chO, ch1] at *)
